@@ -528,10 +528,12 @@ class UnitSystemManager(Singleton):
         """
         from barril.units import Scalar
 
-        ret_tuple = self.ConvertToCurrent(
+        value, unit = self.ConvertToCurrent(
             scalar.GetCategory(), scalar.GetUnit(), scalar.GetValue(), unit_database
         )
-        return Scalar(*ret_tuple)
+        if unit == scalar.GetUnit():
+            return scalar.CreateCopy(value=value)
+        return scalar.CreateCopy(value=value, unit=unit)
 
 
 class _IdentityWrap:
